@@ -27,8 +27,8 @@ type Case struct {
 
 // ServerCfg selects the server options for a run.
 type ServerCfg struct {
-	Limit       int               `json:"limit,omitempty"`   // MessageBufferSize; 0 = option not used
-	Auth        string            `json:"auth,omitempty"`    // "" | cleartext | custom-fail | passthrough
+	Limit       int               `json:"limit,omitempty"` // MessageBufferSize; 0 = option not used
+	Auth        string            `json:"auth,omitempty"`  // "" | cleartext | custom-fail | passthrough
 	Validator   []AuthEntry       `json:"validator,omitempty"`
 	DefaultAuth string            `json:"defauth,omitempty"` // outcome when no entry matches: accept|reject|fail (default reject)
 	Params      map[string]string `json:"params,omitempty"`
@@ -55,12 +55,12 @@ type MWSpec struct {
 
 // ConnCase is the client side of one connection.
 type ConnCase struct {
-	Steps  []Step  `json:"steps"`
-	Cuts   []int   `json:"cuts,omitempty"`   // i-th read returns at most Cuts[i mod len] bytes; empty = unlimited
-	Faults []Fault `json:"faults,omitempty"` // transport fault plan
-	NoEOF  bool    `json:"noeof,omitempty"`  // after the last step the peer stays silent instead of closing (E2 only)
-	TLS    *TLSClient `json:"tlsclient,omitempty"`
-	Measure bool   `json:"measure,omitempty"` // sample allocation counters at quiescence points
+	Steps   []Step     `json:"steps"`
+	Cuts    []int      `json:"cuts,omitempty"`   // i-th read returns at most Cuts[i mod len] bytes; empty = unlimited
+	Faults  []Fault    `json:"faults,omitempty"` // transport fault plan
+	NoEOF   bool       `json:"noeof,omitempty"`  // after the last step the peer stays silent instead of closing (E2 only)
+	TLS     *TLSClient `json:"tlsclient,omitempty"`
+	Measure bool       `json:"measure,omitempty"` // sample allocation counters at quiescence points
 }
 
 // Step is a flight of client messages delivered together; the next step is
@@ -82,12 +82,12 @@ type Fault struct {
 
 // TLSClient describes a real crypto/tls client goroutine (engine E2).
 type TLSClient struct {
-	Pre       []byte `json:"pre,omitempty"`       // plaintext stuffed right behind the SSLRequest
-	PreSplit  bool   `json:"presplit,omitempty"`  // stuffed bytes go out in a separate segment
-	MinVer    uint16 `json:"minver,omitempty"`
-	MaxVer    uint16 `json:"maxver,omitempty"`
-	AbortAt   int    `json:"abortat,omitempty"`   // >0: peer closes after sending that many handshake bytes
-	SSLTwice  bool   `json:"ssltwice,omitempty"`
+	Pre      []byte `json:"pre,omitempty"`      // plaintext stuffed right behind the SSLRequest
+	PreSplit bool   `json:"presplit,omitempty"` // stuffed bytes go out in a separate segment
+	MinVer   uint16 `json:"minver,omitempty"`
+	MaxVer   uint16 `json:"maxver,omitempty"`
+	AbortAt  int    `json:"abortat,omitempty"` // >0: peer closes after sending that many handshake bytes
+	SSLTwice bool   `json:"ssltwice,omitempty"`
 	// StepBytes is filled in by the check from the plaintext reference run: how
 	// many plaintext bytes the server sends in reply to each step.
 	StepBytes []int `json:"stepbytes,omitempty"`
@@ -95,12 +95,12 @@ type TLSClient struct {
 
 // SchedCase is the E2 part of a case.
 type SchedCase struct {
-	Strategy string  `json:"strategy,omitempty"` // uniform | pct | hold | replay
-	Depth    int     `json:"depth,omitempty"`    // pct priority change points
-	Holds    []Hold  `json:"holds,omitempty"`
-	Schedule []int32 `json:"schedule,omitempty"` // replay vector (decision k = ready[schedule[k] mod n])
+	Strategy string   `json:"strategy,omitempty"` // uniform | pct | hold | replay
+	Depth    int      `json:"depth,omitempty"`    // pct priority change points
+	Holds    []Hold   `json:"holds,omitempty"`
+	Schedule []int32  `json:"schedule,omitempty"` // replay vector (decision k = ready[schedule[k] mod n])
 	Closers  []Closer `json:"closers,omitempty"`
-	MaxSteps int     `json:"maxsteps,omitempty"`
+	MaxSteps int      `json:"maxsteps,omitempty"`
 }
 
 // Hold parks Task at Point until Until has passed UntilPoint (or cannot run).
